@@ -602,10 +602,118 @@ func (f *TF) BVCmp(op Op, a, b *Term) *Term {
 	if op == OULt && b.IsConst() && b.U == 0 {
 		return f.False
 	}
+	// cheap unsigned range analysis: x < c / x <= c with umax(x) below c
+	if b.IsConst() && (op == OULt || op == OULe) {
+		m := f.umax(a, 6)
+		if (op == OULt && m < b.U) || (op == OULe && m <= b.U) {
+			return f.True
+		}
+	}
+	if a.IsConst() && (op == OULt || op == OULe) {
+		m := f.umax(b, 6)
+		if (op == OULt && m <= a.U) || (op == OULe && m < a.U) {
+			return f.False
+		}
+	}
+	if b.IsConst() && (op == OSLt || op == OSLe) && sext(b.U, w) >= 0 {
+		// signed compare with a non-negative constant when a is provably non-negative and small
+		m := f.umax(a, 6)
+		if m <= mask(w-1) && ((op == OSLt && m < b.U) || (op == OSLe && m <= b.U)) {
+			return f.True
+		}
+	}
+	if a.IsConst() && (op == OSLt || op == OSLe) && sext(a.U, w) <= 0 {
+		// c <= x with c <= 0 and x provably non-negative
+		m := f.umax(b, 6)
+		if m <= mask(w-1) && (op == OSLe || sext(a.U, w) < 0) {
+			return f.True
+		}
+	}
 	if op == OULe && a.IsConst() && a.U == 0 {
 		return f.True
 	}
 	return f.bin(op, SBool, a, b)
+}
+
+// umax returns an upper bound of the unsigned value of t (cheap, sound, incomplete).
+func (f *TF) umax(t *Term, depth int) uint64 {
+	w := t.S.W
+	full := mask(w)
+	if t.IsConst() {
+		return t.U
+	}
+	if depth <= 0 {
+		return full
+	}
+	switch t.Op {
+	case OBAnd:
+		a, b := f.umax(t.Args[0], depth-1), f.umax(t.Args[1], depth-1)
+		if a < b {
+			return a
+		}
+		return b
+	case OBOr, OBXor:
+		a, b := f.umax(t.Args[0], depth-1), f.umax(t.Args[1], depth-1)
+		m := a | b
+		// round up to all-ones below the top bit
+		for i := uint(1); i < 64; i <<= 1 {
+			m |= m >> i
+		}
+		return m & full
+	case OZExt:
+		return f.umax(t.Args[0], depth-1)
+	case OExtract:
+		lo := int(t.U & 0xff)
+		a := f.umax(t.Args[0], depth-1) >> uint(lo)
+		if a > full {
+			return full
+		}
+		return a
+	case OLShr:
+		if t.Args[1].IsConst() {
+			if t.Args[1].U >= uint64(w) {
+				return 0
+			}
+			return f.umax(t.Args[0], depth-1) >> t.Args[1].U
+		}
+		return f.umax(t.Args[0], depth-1)
+	case OURem:
+		if t.Args[1].IsConst() && t.Args[1].U > 0 {
+			return t.Args[1].U - 1
+		}
+	case OUDiv:
+		if t.Args[1].IsConst() && t.Args[1].U > 0 {
+			return f.umax(t.Args[0], depth-1) / t.Args[1].U
+		}
+	case OIte:
+		a, b := f.umax(t.Args[1], depth-1), f.umax(t.Args[2], depth-1)
+		if a > b {
+			return a
+		}
+		return b
+	case OAdd:
+		a, b := f.umax(t.Args[0], depth-1), f.umax(t.Args[1], depth-1)
+		if a <= full-b {
+			return a + b
+		}
+	case OShl:
+		if t.Args[1].IsConst() && t.Args[1].U < uint64(w) {
+			a := f.umax(t.Args[0], depth-1)
+			sh := t.Args[1].U
+			if a <= full>>sh {
+				return a << sh
+			}
+		}
+	case OMul:
+		if t.Args[1].IsConst() {
+			a := f.umax(t.Args[0], depth-1)
+			c := t.Args[1].U
+			if c != 0 && a <= full/c {
+				return a * c
+			}
+		}
+	}
+	return full
 }
 
 func (f *TF) BVNeg(a *Term) *Term {
